@@ -478,6 +478,7 @@ pub fn check_main(a: CheckArgs) -> i32 {
     let mut lines = vec![];
     let replays = verif.join("replays").join(&a.check);
     let mut reported_sites: BTreeSet<String> = BTreeSet::new();
+    let mut per_clause: BTreeMap<String, u32> = BTreeMap::new();
     let mut known_hit: BTreeSet<String> = BTreeSet::new();
     let mut confirmed_violations = 0u64;
     // crashes of whole worker processes are C14 material
@@ -528,6 +529,12 @@ pub fn check_main(a: CheckArgs) -> i32 {
             continue;
         }
         if !reported_sites.insert(v.site.clone()) {
+            continue;
+        }
+        // at most three reports per clause: further sites of the same clause are counted, not listed
+        let n_clause = per_clause.entry(v.finding.clause.clone()).or_insert(0u32);
+        *n_clause += 1;
+        if *n_clause > 3 {
             continue;
         }
         // minimise, write, and confirm the replay in a fresh process before reporting
